@@ -190,3 +190,70 @@ func assertf(fails *[]string, cond bool, format string, args ...interface{}) {
 		*fails = append(*fails, fmt.Sprintf(format, args...))
 	}
 }
+
+// guarded places a copy of s in the middle of a larger backing array — guard elements in front of
+// it and behind it, the rear ones being spare capacity of the returned slice — and returns a check
+// that everything outside the slice is untouched.  Callers of the library routinely hand over
+// sub-slices of larger buffers; an `append` on such an argument writes into the caller's memory.
+func guarded[T comparable](fails *[]string, what string, s []T, fill func(i int) T) ([]T, func()) {
+	const g = 24
+	arena := make([]T, g+len(s)+g)
+	for i := range arena {
+		arena[i] = fill(i)
+	}
+	copy(arena[g:], s)
+	snap := append([]T(nil), arena...)
+	sub := arena[g : g+len(s)]
+	return sub, func() {
+		for i := range arena {
+			if i >= g && i < g+len(s) {
+				continue
+			}
+			if arena[i] != snap[i] {
+				assertf(fails, false, "%s: memory outside the slice handed to the API was modified (offset %d relative to the slice start, slice length %d)", what, i-g, len(s))
+				return
+			}
+		}
+	}
+}
+
+var sentinelPts = func() []banderwagon.Element {
+	out := make([]banderwagon.Element, 64)
+	p := banderwagon.Generator
+	for i := range out {
+		p.Add(&p, &banderwagon.Generator)
+		out[i] = p
+	}
+	return out
+}()
+
+func fillPt(i int) banderwagon.Element { return sentinelPts[i%len(sentinelPts)] }
+func fillFr(i int) fr.Element {
+	var e fr.Element
+	e.SetUint64(uint64(0xC0FFEE00 + i))
+	return e
+}
+func fillU8(i int) uint8 { return uint8(200 + i%50) }
+
+// guardedSlices: the outer [][]T in an arena whose guard entries are sentinel slices
+func guardedSlices(fails *[]string, what string, s [][]fr.Element) ([][]fr.Element, func()) {
+	const g = 8
+	sent := make([]fr.Element, 3)
+	arena := make([][]fr.Element, g+len(s)+g)
+	for i := range arena {
+		arena[i] = sent
+	}
+	copy(arena[g:], s)
+	sub := arena[g : g+len(s)]
+	return sub, func() {
+		for i := range arena {
+			if i >= g && i < g+len(s) {
+				continue
+			}
+			if len(arena[i]) != 3 || &arena[i][0] != &sent[0] {
+				assertf(fails, false, "%s: memory outside the slice handed to the API was modified (offset %d)", what, i-g)
+				return
+			}
+		}
+	}
+}
